@@ -36,6 +36,14 @@ pub enum BackoffCase {
         policy: Option<(u64, u64)>,
         attempts: u32,
     },
+    /// a reconnect loop whose policy needs more than 32 doublings to reach its cap (initial delay
+    /// in microseconds, cap in seconds): every delay of the loop is compared with
+    /// min(initial x 2^k, cap)
+    EndToEndLong {
+        init_us: u64,
+        cap_s: u64,
+        attempts: u32,
+    },
 }
 
 const DAY_NS: u64 = 86_400_000_000_000;
@@ -116,11 +124,19 @@ fn case_strategy(tier: Tier) -> BoxedStrategy<BackoffCase> {
         (e2e_attempts / 2)..=e2e_attempts,
     )
         .prop_map(|(policy, attempts)| BackoffCase::EndToEnd { policy, attempts });
+    let e2e_long = (prop_oneof![Just(1u64), Just(2u64), Just(3u64)], 13u64..=30, 35u32..=40).prop_map(|(init_us, tenths, attempts)| {
+        BackoffCase::EndToEndLong {
+            init_us,
+            // the cap lies 1.3-3 times above initial x 2^32
+            cap_s: init_us * 4295 * tenths / 10,
+            attempts,
+        }
+    });
     let func_weight = match tier {
         Tier::Quick => 4_000u32,
         Tier::Thorough => 40_000u32,
     };
-    prop_oneof![func_weight => func, e2e_weight => e2e].boxed()
+    prop_oneof![func_weight => func, e2e_weight => e2e, 1 => e2e_long].boxed()
 }
 
 fn dur(ns: u64) -> Duration {
@@ -308,6 +324,21 @@ pub fn run_case(case: &BackoffCase) -> Report {
             }
             finish(r, case, overflow_or_cap)
         }
+        BackoffCase::EndToEndLong {
+            init_us,
+            cap_s,
+            attempts,
+        } => {
+            let (violations, log) = sim::run_case(e2e_long(*init_us, *cap_s, *attempts));
+            for v in violations {
+                r.fail(v);
+            }
+            r.class("end_to_end_reconnect_outage_past_32_doublings");
+            r.nontrivial = true;
+            let evs: Vec<_> = log.iter().rev().take(12).collect();
+            r.trace = json!({"last_events": evs, "events_total": log.len()});
+            r
+        }
         BackoffCase::EndToEnd { policy, attempts } => {
             let (violations, log) = sim::run_case(e2e(*policy, *attempts));
             for v in violations {
@@ -421,6 +452,93 @@ async fn e2e(policy: Option<(u64, u64)>, attempts: u32) -> (Vec<String>, Vec<Ev>
     (violations, snap)
 }
 
+/// See `BackoffCase::EndToEndLong`.
+async fn e2e_long(init_us: u64, cap_s: u64, attempts: u32) -> (Vec<String>, Vec<Ev>) {
+    let mut violations = vec![];
+    let log = Log::new();
+    let mut sim = Sim::new(log.clone(), vec![]);
+    let inner = Scripted::new(log.clone(), 1, |_, _, _| Step::err(0, 2));
+    let layer = ReconnectLayer::new(
+        ReconnectConfig::builder()
+            .policy(ReconnectPolicy::exponential(
+                Duration::from_micros(init_us),
+                Duration::from_secs(cap_s),
+            ))
+            .unlimited_attempts()
+            .build(),
+    );
+    let mut svc = layer.layer(inner.clone());
+    let _ = futures::future::poll_fn(|cx| svc.poll_ready(cx)).await;
+    let fut = svc.call(Req {
+        id: 0,
+        key: 0,
+        tag: 0,
+    });
+    let task = sim.spawn_call(fut, |r| match r {
+        Ok(_) => Outcome::Other("ok".into()),
+        Err(e) => Outcome::Other(format!("{e}")),
+    });
+    sim.settle().await;
+    // expected delay (ms, rounded down) before the retry that follows k failures, under either
+    // numbering of attempts
+    let expected_ms = |k: u32| -> (u64, u64) {
+        let cap_ms = cap_s as u128 * 1000;
+        let f = |e: u32| -> u64 { ((init_us as u128).saturating_mul(1u128 << e.min(100)) / 1000).min(cap_ms) as u64 };
+        (f(k), f(k + 1))
+    };
+    let mut steps: Vec<u64> = vec![];
+    let mut guard = 0u64;
+    while (inner.shared.calls() as u32) < attempts && sim.state(task) == TaskState::Live {
+        let k = (inner.shared.calls() as u32).saturating_sub(1);
+        let step = (expected_ms(k).0 / 64).max(1);
+        while steps.len() <= k as usize {
+            steps.push(step);
+        }
+        crate::vclock::advance_ms(step);
+        sim.settle().await;
+        guard += 1;
+        if guard > attempts as u64 * 400 + 10_000 {
+            violations.push(format!(
+                "reconnect loop made only {} attempts in {} ms of outage",
+                inner.shared.calls(),
+                sim::now()
+            ));
+            break;
+        }
+    }
+    let snap = log.snapshot();
+    for e in &snap {
+        if let Ev::TaskPanic { msg, t, .. } = e {
+            violations.push(format!("reconnect future panicked after {t} ms of outage: {msg}"));
+        }
+        if let Ev::Resolve { t, out, .. } = e {
+            violations.push(format!("reconnect with unlimited attempts gave up at t={t} ms: {out:?}"));
+        }
+    }
+    let enters: Vec<u64> = snap
+        .iter()
+        .filter_map(|e| match e {
+            Ev::Enter { t, .. } => Some(*t),
+            _ => None,
+        })
+        .collect();
+    for (k, w) in enters.windows(2).enumerate() {
+        let gap = w[1] - w[0];
+        let (a, b) = expected_ms(k as u32);
+        let slack = steps.get(k).copied().unwrap_or(1) + 2;
+        let fits = |e: u64| gap + 1 >= e && gap <= e + slack;
+        if !fits(a) && !fits(b) {
+            violations.push(format!(
+                "after {} consecutive failures the loop waited {gap} ms; initial {init_us} us x 2^{k} (or 2^{}) capped at {cap_s} s is {a} ms (or {b} ms)",
+                k + 1,
+                k + 1
+            ));
+            break;
+        }
+    }
+    (violations, snap)
+}
+
 pub struct C14;
 impl Property for C14 {
     type Case = BackoffCase;
@@ -440,7 +558,7 @@ impl Property for C14 {
         run_case(case)
     }
     fn rule(&self) -> String {
-        "proptest-generated (backoff kind in {ExponentialBackoff, ExponentialRandomBackoff, ReconnectPolicy::exponential / exponential_random / fixed / default}, initial 0 ns..10 days, multiplier 1.00-10.00, max_interval none / 0 / ms..years / u64::MAX ns, randomization factor 0-1, attempt pair a<=b from dense 0-10000 plus 2^k+-1, i32::MAX+-1, u32::MAX(+1), usize::MAX(-1)); oracle: no panic; value = min(initial*m^attempt, cap) within 1e-9 relative + 2 ns (independent powf formula), exactly the cap once the product is past it, never above it, f(a) <= f(b); jittered value within [v(1-f), v(1+f)]. Plus end-to-end: ReconnectLayer (defaults or explicit exponential policy, unlimited attempts) against an always-failing service for 200-400 / 10000-20000 attempts of virtual time: never panics or gives up, gaps non-decreasing and <= cap. Non-trivial: the product overflows Duration or exceeds the cap for a drawn attempt, or an end-to-end case; distinct by hash of the case".into()
+        "proptest-generated (backoff kind in {ExponentialBackoff, ExponentialRandomBackoff, ReconnectPolicy::exponential / exponential_random / fixed / default}, initial 0 ns..10 days, multiplier 1.00-10.00, max_interval none / 0 / ms..years / u64::MAX ns, randomization factor 0-1, attempt pair a<=b from dense 0-10000 plus 2^k+-1, i32::MAX+-1, u32::MAX(+1), usize::MAX(-1)); oracle: no panic; value = min(initial*m^attempt, cap) within 1e-9 relative + 2 ns (independent powf formula), exactly the cap once the product is past it, never above it, f(a) <= f(b); jittered value within [v(1-f), v(1+f)]. Plus end-to-end: ReconnectLayer (defaults or explicit exponential policy, unlimited attempts) against an always-failing service for 200-400 / 10000-20000 attempts of virtual time: never panics or gives up, gaps non-decreasing and <= cap; and a loop whose policy needs more than 32 doublings (initial 1-3 us, cap 1.3-3 x initial x 2^32, 35-40 failures in a row): every gap equals min(initial x 2^k, cap) within the step of the simulation. Non-trivial: the product overflows Duration or exceeds the cap for a drawn attempt, or an end-to-end case; distinct by hash of the case".into()
     }
     fn assumptions(&self) -> Vec<String> {
         vec![
